@@ -1091,6 +1091,13 @@ public:
                         {
                             state_ = csv_parse_state::between_values;
                         }
+                        else if (curr_char == quote_escape_char_)
+                        {
+                            buffer_.push_back(static_cast<CharT>(curr_char));
+                            state_ = csv_parse_state::quoted_string;
+                            ++column_;
+                            ++input_ptr_;
+                        }
                         else
                         {
                             ec = csv_errc::invalid_escaped_char;
